@@ -125,6 +125,59 @@ fn inner(name: &str, a: &[String]) -> String {
         "floor" => d(dur(a, 0).floor(dur(a, 2))),
         "ceil" => d(dur(a, 0).ceil(dur(a, 2))),
         "round" => d(dur(a, 0).round(dur(a, 2))),
+        "epoch_add_unit" => e(Epoch::from_duration(dur(a, 0), scale(&a[2])) + unit(&a[3])),
+        "epoch_sub_unit" => e(Epoch::from_duration(dur(a, 0), scale(&a[2])) - unit(&a[3])),
+        "epoch_add_assign" => {
+            let mut x = Epoch::from_duration(dur(a, 0), scale(&a[2]));
+            x += dur(a, 3);
+            e(x)
+        }
+        "epoch_sub_assign" => {
+            let mut x = Epoch::from_duration(dur(a, 0), scale(&a[2]));
+            x -= dur(a, 3);
+            e(x)
+        }
+        "epoch_add_assign_unit" => {
+            let mut x = Epoch::from_duration(dur(a, 0), scale(&a[2]));
+            x += unit(&a[3]);
+            e(x)
+        }
+        "epoch_sub_assign_unit" => {
+            let mut x = Epoch::from_duration(dur(a, 0), scale(&a[2]));
+            x -= unit(&a[3]);
+            e(x)
+        }
+        "epoch_eq" => format!("{}", Epoch::from_duration(dur(a, 0), scale(&a[2])) == Epoch::from_duration(dur(a, 3), scale(&a[5]))),
+        "epoch_cmp" => ord(Epoch::from_duration(dur(a, 0), scale(&a[2])).cmp(&Epoch::from_duration(dur(a, 3), scale(&a[5])))),
+        "epoch_partial_cmp" => match Epoch::from_duration(dur(a, 0), scale(&a[2])).partial_cmp(&Epoch::from_duration(dur(a, 3), scale(&a[5]))) {
+            Some(o) => format!("Some {}", ord(o)),
+            None => "None".to_string(),
+        },
+        "epoch_min" => e(Epoch::min(&Epoch::from_duration(dur(a, 0), scale(&a[2])), Epoch::from_duration(dur(a, 3), scale(&a[5])))),
+        "epoch_max" => e(Epoch::max(&Epoch::from_duration(dur(a, 0), scale(&a[2])), Epoch::from_duration(dur(a, 3), scale(&a[5])))),
+        "to_gnss_nanoseconds" => {
+            // epoch(c n ts) which(5 gpst,6 gst,7 bdt,8 qzsst)
+            let x = Epoch::from_duration(dur(a, 0), scale(&a[2]));
+            let r = match p::<u8>(&a[3]) {
+                5 => x.to_gpst_nanoseconds(),
+                6 => x.to_gst_nanoseconds(),
+                7 => x.to_bdt_nanoseconds(),
+                _ => x.to_qzsst_nanoseconds(),
+            };
+            match r {
+                Ok(v) => format!("Ok {v}"),
+                Err(_) => "Err".to_string(),
+            }
+        }
+        "from_gnss_nanoseconds" => {
+            let n: u64 = p(&a[0]);
+            e(match p::<u8>(&a[1]) {
+                5 => Epoch::from_gpst_nanoseconds(n),
+                6 => Epoch::from_gst_nanoseconds(n),
+                7 => Epoch::from_bdt_nanoseconds(n),
+                _ => Epoch::from_qzsst_nanoseconds(n),
+            })
+        }
         "epoch_floor" => e(Epoch::from_duration(dur(a, 0), scale(&a[2])).floor(dur(a, 3))),
         "epoch_ceil" => e(Epoch::from_duration(dur(a, 0), scale(&a[2])).ceil(dur(a, 3))),
         "epoch_round" => e(Epoch::from_duration(dur(a, 0), scale(&a[2])).round(dur(a, 3))),
